@@ -101,7 +101,7 @@ class P:
             n = self.alt()
             self.skip()
             self.i += 1
-            return n
+            return ("cap", n)
         if c == "{":
             depth, j = 0, self.i
             while True:
@@ -210,7 +210,7 @@ class Checker:
         elif e[0] in ("seq", "alt"):
             for k in e[1]:
                 yield from self.actions_of(k)
-        elif e[0] in ("star", "plus", "opt", "pred"):
+        elif e[0] in ("star", "plus", "opt", "pred", "cap"):
             yield from self.actions_of(e[1])
 
     # the abstract stack is a tuple of items; None = dead (the path panics)
@@ -353,6 +353,8 @@ class Checker:
         k = e[0]
         if k in ("lex", "pred"):
             return st
+        if k == "cap":
+            return self.run(e[1], st)
         if k == "action":
             self.shapes.setdefault(self.action_no[id(e)], set()).add(st)
             return self.action(e, st)
@@ -441,6 +443,97 @@ class Checker:
     residual = []
 
 
+# ---------------------------------------------------------------- C18: spellings the grammar declares insignificant
+
+
+def refs_of(e, rules, seen=None, through_rules=True):
+    """names of the rules an expression refers to (transitively when through_rules)"""
+    seen = set() if seen is None else seen
+    if e[0] == "ref":
+        if e[1] not in seen:
+            seen.add(e[1])
+            if through_rules and e[1] in rules:
+                refs_of(rules[e[1]], rules, seen, True)
+    elif e[0] in ("seq", "alt"):
+        for k in e[1]:
+            refs_of(k, rules, seen, through_rules)
+    elif e[0] in ("star", "plus", "opt", "pred", "cap"):
+        refs_of(e[1], rules, seen, through_rules)
+    return seen
+
+
+def has_action(e, rules, seen=None):
+    seen = set() if seen is None else seen
+    if e[0] == "action":
+        return True
+    if e[0] == "ref":
+        if e[1] in seen or e[1] not in rules:
+            return False
+        seen.add(e[1])
+        return has_action(rules[e[1]], rules, seen)
+    if e[0] in ("seq", "alt"):
+        return any(has_action(k, rules, seen) for k in e[1])
+    if e[0] in ("star", "plus", "opt", "pred", "cap"):
+        return has_action(e[1], rules, seen)
+    return False
+
+
+# uses of the captured text that do not feed a value of the query: the step's text in error messages, the position of a
+# syntax error, the (rejected) script text, the test for a leading `!`
+TEXT_ONLY = [r"p\.setLastNodeText\(text\)", r"p\.pushFunction\(text,", r"p\.pushScriptQualifier\(text\)", r"text\[0:1\]", r"p\.syntaxErr\("]
+
+
+def spelling_check(rules):
+    probs = []
+    if "space" not in rules:
+        return ["the grammar has no rule `space`"]
+    # (a) optional space and the separators built from it run no action
+    for name, body in rules.items():
+        direct = refs_of(body, rules, through_rules=False)
+        lexical_only = all(k[0] in ("lex", "action") or (k[0] == "ref" and k[1] == "space") for k in (body[1] if body[0] == "seq" else [body]))
+        if name == "space" or ("space" in direct and lexical_only):
+            if has_action(body, rules):
+                probs.append("separator rule %s runs an action" % name)
+    # (b) a captured text that feeds a value never includes optional space
+    def walk(e, rule):
+        if e[0] == "seq":
+            cap = None
+            for k in e[1]:
+                if k[0] == "cap":
+                    cap = k
+                elif k[0] == "action":
+                    body = k[1]
+                    rest = body
+                    for pat in TEXT_ONLY:
+                        rest = re.sub(pat, "", rest)
+                    if re.search(r"\btext\b", rest):
+                        if cap is None:
+                            probs.append("rule %s: an action uses `text` without a capture before it" % rule)
+                        elif "space" in refs_of(cap, rules):
+                            probs.append("rule %s: the captured text that feeds a value can include optional space" % rule)
+                walk(k, rule)
+        elif e[0] == "alt":
+            for k in e[1]:
+                walk(k, rule)
+        elif e[0] in ("star", "plus", "opt", "pred", "cap"):
+            walk(e[1], rule)
+    for name, body in rules.items():
+        walk(body, name)
+    # (c) `.*` and `[*]` run the same action: both the dot form and the bracket form refer to one wildcard rule
+    for a, b in (("dotChildIdentifier", "wildcardIdentifier"), ("bracketNodeIdentifier", "wildcardIdentifier")):
+        if a not in rules or b not in refs_of(rules[a], rules, through_rules=False):
+            probs.append("rule %s does not refer to %s: `.*` and `[*]` no longer run the same action" % (a, b))
+    # (d) a path without `$` starts with the very rules a later step uses
+    if "rootNode" in rules and "childNode" in rules:
+        first = refs_of(rules["rootNode"], rules, through_rules=False) - {"rootIdentifier"}
+        later = refs_of(rules["childNode"], rules, through_rules=False)
+        if not first or not first <= later:
+            probs.append("rootNode's alternatives without `$` (%s) are not the rules of a later step (%s)" % (sorted(first), sorted(later)))
+    else:
+        probs.append("rules rootNode / childNode not found")
+    return probs
+
+
 def main(repo):
     rules = load_grammar(os.path.join(repo, "jsonpath.peg"))
     ck = Checker(rules)
@@ -478,7 +571,11 @@ def main(repo):
     if len(ck.shapes) != len(ck.action_no):
         problems.append("%d of %d actions are not reached from the start rule" % (len(ck.action_no) - len(ck.shapes), len(ck.action_no)))
     shapes = {str(k): sorted(" ".join(s) for s in v) for k, v in sorted(ck.shapes.items())}
-    print(json.dumps({"rules": len(rules), "actions": len(ck.action_no), "actions_reached": len(ck.shapes),
+    try:
+        spelling = spelling_check(rules)
+    except Exception as e:
+        spelling = ["checker error: %r" % (e,)]
+    print(json.dumps({"spelling_problems": spelling, "rules": len(rules), "actions": len(ck.action_no), "actions_reached": len(ck.shapes),
                       "problems": problems, "residual_assumptions": sorted(set(ck.residual)), "stack_shapes_at_actions": shapes}, indent=1))
     return 0
 
